@@ -1133,6 +1133,22 @@ func classifyResult(w *World, h *ssa.Function, at ssa.Instruction, v ssa.Value, 
 		for i, e := range x.Edges {
 			pred := x.Block().Preds[i]
 			last := pred.Instrs[len(pred.Instrs)-1]
+			// the edge pred→phi-block may itself decide the value (if err == nil {...}; return err)
+			if ifi, ok := last.(*ssa.If); ok {
+				failing := false
+				for si, sb := range pred.Succs {
+					if sb != x.Block() {
+						continue
+					}
+					a := normCond(ifi.Cond, si == 0)
+					if a.V != nil && sameValue(a.V, e) && (wantNil && a.Kind == "nonnil" || !wantNil && a.Kind == "false") {
+						failing = true
+					}
+				}
+				if failing {
+					continue
+				}
+			}
 			out = append(out, classifyResult(w, h, last, e, wantNil, depth+1)...)
 		}
 		return out
